@@ -31,7 +31,7 @@ def task(item):
     for _ in range(uniform):
         m.uniform_refine()
     elems = list(m.leaf_elements)
-    out = {'n': 0, 'blocks': 0, 'viols': [], 'lam': [], 'skipped': 0, 'N': len(elems)}
+    out = {'n': 0, 'blocks': 0, 'viols': [], 'lam': [], 'skipped': 0, 'N': len(elems), 'unstable': 0}
     if any(universe.aspect(e) > ASPECT for e in elems):
         out['skipped'] = 1
         return out
@@ -48,25 +48,33 @@ def task(item):
         if not (lam > LAMBDA_MIN) or np.any(np.diag(A) <= 0):
             out['viols'].append(('not-positive-definite', {'cfg': cfgname, 'history': h, 'uniform': uniform, 'pw_exact': sw, 'lambda_min': lam, 'N': len(elems)}))
         if len(elems) <= 40 or sw is False:
+            # operator history: serve the child blocks twice (the second time with NEW virtual children, the first ones having been
+            # freed) and re-assemble on the same operator; C13 is judged on what the operator returns AFTER that history
+            # (bitwise instability alone is counted as an observation - it is C17's / C01's business)
             blocks = {}
             for rep in (0, 1):
-                # second pass: NEW virtual children (the first ones have been freed) on the same operator must give the
-                # same blocks bit for bit - an operator must not remember transient elements
                 for e, children in zip(elems, DummyElement.uniform_refinement(elems)):
                     if any(universe.aspect(c) > ASPECT for c in children):
                         continue
                     S4r = SL.bilform_matrix(children, children)
                     if rep == 0:
                         blocks[id(e)] = S4r
-                    elif not np.array_equal(S4r, blocks[id(e)]):
-                        out['viols'].append(('operator-history-child-block', {'cfg': cfgname, 'history': h, 'uniform': uniform, 'pw_exact': sw,
-                                                                              'elem': [e.time_interval, e.space_interval]}))
+                        continue
+                    if not np.array_equal(S4r, blocks[id(e)]):
+                        out['unstable'] = out.get('unstable', 0) + 1
+                    l4r = lam_min(S4r) if np.all(np.diag(S4r) > 0) else float('-inf')
+                    sc_bad = [float(np.array(c) @ (S4r @ np.array(c).T)) for c in COEFS if not float(np.array(c) @ (S4r @ np.array(c).T)) > 0]
+                    if not l4r > LAMBDA_MIN or sc_bad:
+                        out['viols'].append(('child-block-after-operator-history', {'cfg': cfgname, 'history': h, 'uniform': uniform, 'pw_exact': sw,
+                                                                                    'lambda_min': l4r, 'elem': [e.time_interval, e.space_interval]}))
                         break
             A2 = SL.bilform_matrix(elems, elems)
-            Afresh = SingleLayerOperator(m, pw_exact=sw).bilform_matrix(elems, elems)
-            if not (np.array_equal(A2, A) and np.array_equal(Afresh, A)):
-                out['viols'].append(('operator-history-matrix', {'cfg': cfgname, 'history': h, 'uniform': uniform, 'pw_exact': sw,
-                                                                 'detail': 're-assembly after serving the child blocks, or assembly by a fresh operator, differs'}))
+            if not np.array_equal(A2, A):
+                out['unstable'] = out.get('unstable', 0) + 1
+            lam2 = lam_min(A2) if np.all(np.diag(A2) > 0) else float('-inf')
+            if not lam2 > LAMBDA_MIN:
+                out['viols'].append(('not-positive-definite-after-operator-history', {'cfg': cfgname, 'history': h, 'uniform': uniform, 'pw_exact': sw,
+                                                                                      'lambda_min': lam2, 'lambda_min_first_assembly': lam}))
             for e, children in zip(elems, DummyElement.uniform_refinement(elems)):
                 if any(universe.aspect(c) > ASPECT for c in children):
                     continue
@@ -108,6 +116,17 @@ def run(ctx):
             hs = meshmc.all_states(ctx, cfgname, 1 if (ctx.tier == 'quick' or k == 4) else 2, key='leaf', root=root)
             per['{}+space{}'.format(cfgname, k)] = {'root_len': len(root), 'leaf_set_distinct_states': len(hs)}
             items += [(cfgname, h, 0) for h in hs]
+    # alternating-time meshes: uniform space refinement, then every other element (in space order) bisected in time - spatially
+    # adjacent elements alternate between two time levels (couplings between long-time and short-time neighbours accumulate)
+    for cfgname in ('UnitSquare', 'Circle', 'PiSquare', 'LShapeDriver'):
+        for k in ((2, ) if ctx.tier == 'quick' else (1, 2, 3)):
+            root = meshmc.uniform_history(cfgname, k)
+            mm = meshmc.build(CFGS[cfgname], root)
+            rects = sorted((meshmc.rect_of(e) for e in mm.leaf_elements), key=lambda r: (r[2], r[0]))
+            for phase in (0, 1):
+                hh = root + tuple((r, 0) for i, r in enumerate(rects) if i % 2 == phase)
+                items.append((cfgname, hh, 0))
+            per['{}+space{}+alternating-time'.format(cfgname, k)] = {'leaves': len(rects)}
     # uniform refinements and deep roots
     for cfgname in ('UnitSquare', 'PiSquare', 'LShapeDriver', 'Circle'):
         for u in ((1, 2) if ctx.tier == 'quick' else (1, 2, 3)):
@@ -117,13 +136,14 @@ def run(ctx):
             if ctx.tier == 'thorough':
                 items.append((cfgname, root, 1))
     res = pmap(task, items, ctx.jobs, chunksize=1)
-    n = blocks = skipped = 0
+    n = blocks = skipped = unstable = 0
     lams = []
     maxN = 0
     for it, r in zip(items, res):
         n += r['n']
         blocks += r['blocks']
         skipped += r['skipped']
+        unstable += r.get('unstable', 0)
         lams += r['lam']
         maxN = max(maxN, r['N'] if not r['skipped'] else 0)
         for tag, v in r['viols']:
@@ -132,7 +152,7 @@ def run(ctx):
         raise common.HarnessError('vacuous C13 run')
     cov = {'evaluations': n + blocks, 'distinct_nontrivial': n + blocks,
            'rule': 'one case = (leaf-set-distinct mesh, switch value) or (element child block, switch value); meshes with a leaf of aspect > 32 skipped',
-           'meshes_x_switch': n, 'child_blocks': blocks, 'meshes_skipped_by_aspect': skipped, 'per_graph': per,
+           'meshes_x_switch': n, 'child_blocks': blocks, 'meshes_skipped_by_aspect': skipped, 'observation_bitwise_unstable_results_along_operator_histories': unstable, 'per_graph': per,
            'smallest_lambda_min_seen': min(lams), 'largest_mesh': maxN,
            'samples': [{'cfg': items[1][0], 'history': list(items[1][1])}, {'cfg': items[-1][0], 'history': list(items[-1][1]), 'uniform': items[-1][2]}],
            'exhaustive': True}
